@@ -16,7 +16,7 @@ def setup():
         err = translate.run(name)
         if err:
             print("translator %s: %s" % (name, err))
-    ok, log = vlib.coq_make([], timeout=5400)
+    ok, log = vlib.coq_make([], timeout=5400, keep_going=True)
     print(log[-3000:])
     if not ok:
         print("setup: Coq build failed (checks will report it per property)")
